@@ -63,6 +63,17 @@ func (d *DateTime) UnmarshalJSON(bytes []byte) error {
 	datetime, err := time.ParseInLocation("2006-01-02 15:04:05", s, time.Local)
 	if err != nil {
 		datetime, err = time.ParseInLocation("2006-01-02 15:04:05 MST", s, time.Local)
+
+		// ... numeric timezone abbreviation with minutes (e.g. +0330) ?
+		if err != nil {
+			datetime, err = time.ParseInLocation("2006-01-02 15:04:05 -0700", s, time.Local)
+		}
+
+		// ... unknown or ambiguous timezone abbreviation: fall back to the local date/time
+		if len(s) > 19 && (err != nil || datetime.Format("2006-01-02 15:04:05") != s[:19]) {
+			datetime, err = time.ParseInLocation("2006-01-02 15:04:05", s[:19], time.Local)
+		}
+
 		if err != nil {
 			return err
 		}
